@@ -114,7 +114,18 @@ func c08Entries() []c08Entry {
 		}},
 		{"pkg.unmarshalAttrs", func(t byte) bool { return t == rfAttrs }, func(b []byte) {
 			if len(b) >= 5 {
-				unmarshalAttrs(b[5:])
+				// decoding includes what callers then read from the result: every accessor is total as well
+				if fs, _, err := unmarshalAttrs(b[5:]); err == nil && fs != nil {
+					fs.FileMode()
+					fs.ModTime()
+					fs.AccessTime()
+					fi := fileInfoFromStat(fs, "name")
+					fi.Mode()
+					fi.IsDir()
+					fi.ModTime()
+					fi.Size()
+					_ = fi.Mode().String()
+				}
 			}
 		}},
 		{"pkg.unmarshalFileStat(anyflags)", func(t byte) bool { return t == rfAttrs }, func(b []byte) {
